@@ -426,7 +426,9 @@ impl Write for SimSink {
 /// Run a closure under catch_unwind with panic output silenced; returns the
 /// panic message on unwind.
 pub fn guarded<T, F: FnOnce() -> T>(f: F) -> Result<T, String> {
+    let prev = crate::heap::enter_sut();
     let r = std::panic::catch_unwind(std::panic::AssertUnwindSafe(f));
+    crate::heap::leave_sut(prev);
     match r {
         Ok(v) => Ok(v),
         Err(p) => {
